@@ -1315,30 +1315,88 @@ pub fn is_type_parameter_used_in_type(
                 }
             }
 
-            ty.path.segments.iter().any(|segment| {
-                if let syn::PathArguments::AngleBracketed(arguments) =
-                    &segment.arguments
-                {
-                    arguments.args.iter().any(|argument| match argument {
-                        syn::GenericArgument::Type(ty) => {
-                            is_type_parameter_used_in_type(type_parameters, ty)
-                        }
-                        syn::GenericArgument::Constraint(constraint) => {
-                            type_parameters.contains(&constraint.ident)
-                        }
-                        _ => false,
-                    })
-                } else {
-                    false
+            is_type_parameter_used_in_path_arguments(type_parameters, &ty.path)
+        }
+
+        syn::Type::Array(syn::TypeArray { elem, .. })
+        | syn::Type::Group(syn::TypeGroup { elem, .. })
+        | syn::Type::Paren(syn::TypeParen { elem, .. })
+        | syn::Type::Ptr(syn::TypePtr { elem, .. })
+        | syn::Type::Reference(syn::TypeReference { elem, .. })
+        | syn::Type::Slice(syn::TypeSlice { elem, .. }) => {
+            is_type_parameter_used_in_type(type_parameters, elem)
+        }
+
+        syn::Type::Tuple(syn::TypeTuple { elems, .. }) => elems
+            .iter()
+            .any(|ty| is_type_parameter_used_in_type(type_parameters, ty)),
+
+        syn::Type::BareFn(syn::TypeBareFn { inputs, output, .. }) => {
+            inputs
+                .iter()
+                .any(|arg| is_type_parameter_used_in_type(type_parameters, &arg.ty))
+                || is_type_parameter_used_in_return_type(type_parameters, output)
+        }
+
+        syn::Type::TraitObject(syn::TypeTraitObject { bounds, .. }) => {
+            bounds.iter().any(|bound| match bound {
+                syn::TypeParamBound::Trait(syn::TraitBound { path, .. }) => {
+                    is_type_parameter_used_in_path_arguments(type_parameters, path)
                 }
+                _ => false,
             })
         }
 
-        syn::Type::Reference(ty) => {
-            is_type_parameter_used_in_type(type_parameters, &ty.elem)
-        }
-
         _ => false,
+    }
+}
+
+/// Checks whether any of the provided `type_parameters` is used in the arguments of any segment
+/// of the provided [`syn::Path`].
+fn is_type_parameter_used_in_path_arguments(
+    type_parameters: &HashSet<syn::Ident>,
+    path: &syn::Path,
+) -> bool {
+    path.segments
+        .iter()
+        .any(|segment| match &segment.arguments {
+            syn::PathArguments::None => false,
+            syn::PathArguments::AngleBracketed(arguments) => {
+                arguments.args.iter().any(|argument| match argument {
+                    syn::GenericArgument::Type(ty)
+                    | syn::GenericArgument::AssocType(syn::AssocType { ty, .. }) => {
+                        is_type_parameter_used_in_type(type_parameters, ty)
+                    }
+                    syn::GenericArgument::Constraint(constraint) => {
+                        type_parameters.contains(&constraint.ident)
+                    }
+                    _ => false,
+                })
+            }
+            syn::PathArguments::Parenthesized(arguments) => {
+                arguments
+                    .inputs
+                    .iter()
+                    .any(|ty| is_type_parameter_used_in_type(type_parameters, ty))
+                    || is_type_parameter_used_in_return_type(
+                        type_parameters,
+                        &arguments.output,
+                    )
+            }
+        })
+}
+
+/// Checks whether any of the provided `type_parameters` is used in the provided
+/// [`syn::ReturnType`].
+fn is_type_parameter_used_in_return_type(
+    type_parameters: &HashSet<syn::Ident>,
+    ty: &syn::ReturnType,
+) -> bool {
+    match ty {
+        syn::ReturnType::Default => false,
+        syn::ReturnType::Type(_, ty) => {
+            is_type_parameter_used_in_type(type_parameters, ty)
+        }
     }
 }
 
